@@ -41,7 +41,7 @@ CHECKS["C18"] = src("Control-flow family with panic(\"boom\") at every statement
 
 CHECKS["C17"] = dict(level="model_checking",
   technique="TLA+ model checking of the abstract call depth of the seq.go transcription (TLC invariant) + replay of the TLC-selected loop cases on the real runtime/compiled code with real call-depth sampling",
-  text="SeqMachine.tla counts the CPS activations Go keeps on its stack during one advance; TLC checks on every loop term (size<=3/4) under periodic tapes that the depth is bounded by a function of the term's shape only (invariant DepthBounded; the loop driver is modelled as in the code at HEAD). TLC also selects the (term, pattern) and (compiled F_ctl loop program, pattern) cases whose first advance runs through the whole tape without yielding; each is replayed on the real code with the pattern repeated 10^5 (quick) / 10^6 (thorough) times while runtime.Callers depth is sampled at events 10, 100, 1000, ...: growth beyond event 10 must stay below 1000 frames, and recursive delegation must add a constant number of frames per level.",
+  text="SeqMachine.tla counts the CPS activations Go keeps on its stack during one advance; TLC checks on every loop term (size<=3/4) under periodic tapes that the depth is bounded by a function of the term's shape only (invariant DepthBounded; the loop driver is modelled as in the code at HEAD). TLC also selects the (term, pattern) and (compiled F_ctl loop program, pattern) cases whose first advance runs through the whole tape without yielding; each is replayed on the real code with the pattern repeated 2*10^4 (quick) / 2*10^5 (thorough) times while runtime.Callers depth is sampled at events 10, 100, 1000, ...: growth beyond event 10 must stay below 1000 frames, and recursive delegation must add a constant number of frames per level.",
   note="TLA+ has no notion of real stack frames: the bound is measured by the harness on the real code (runtime.Callers) and checked against the spec's abstract statement. Trusted: TLC, renderers, rt.Rec probe.",
   design="7 C17")
 
